@@ -507,6 +507,14 @@ func (s *Service) sendMsgEvents(msg *service.StateMsg) {
 // startInternalListener listens to messages in gochannel for callback messages from clients.
 func (s *Service) startInternalListener() {
 	for msg := range s.callbackChannel {
+		// the decision is taken later than the action event was raised: the thread may have moved on meanwhile (accepted
+		// through the connection id, completed, abandoned). A decision that no longer applies is dropped.
+		if err := s.stillApplicable(msg); err != nil {
+			logger.Errorf("process callback : %s", err)
+
+			continue
+		}
+
 		// TODO https://github.com/hyperledger/aries-framework-go/issues/242 - retry logic
 		// if no error - do handle
 		if msg.err == nil {
@@ -522,6 +530,30 @@ func (s *Service) startInternalListener() {
 			logger.Errorf("process callback : %s", err)
 		}
 	}
+}
+
+// stillApplicable tells whether the thread's persisted state still allows the step the callback message was parked for.
+func (s *Service) stillApplicable(msg *message) error {
+	next, err := stateFromName(msg.NextStateName)
+	if err != nil {
+		return fmt.Errorf("invalid state name: %w", err)
+	}
+
+	nsThID, err := connection.CreateNamespaceKey(findNamespace(msg.Msg.Type()), msg.ThreadID)
+	if err != nil {
+		return err
+	}
+
+	current, err := s.currentState(nsThID)
+	if err != nil {
+		return err
+	}
+
+	if !current.CanTransitionTo(next) {
+		return fmt.Errorf("the decision no longer applies: invalid state transition: %s -> %s", current.Name(), next.Name())
+	}
+
+	return nil
 }
 
 // AcceptInvitation accepts/approves connection invitation.
